@@ -88,6 +88,9 @@ func baseLabel(construct string) string {
 }
 
 func main() {
+	if len(os.Args) > 1 && os.Args[1] == "variant" {
+		os.Exit(variantMain(os.Args[2:]))
+	}
 	if len(os.Args) > 1 && os.Args[1] == "replay" {
 		os.Exit(replayMain(os.Args[2:]))
 	}
